@@ -669,9 +669,30 @@ cdef class ExtendedZOrderNNPS(ZOrderNNPS):
                     current_pids, current_cids, current_hmax, num_particles,
                     found_indices, h)
         else:
+            # the boxes found for cell (i, j, k) serve the destination
+            # particles of every array, not only those of the source array
+            h = fmax(h, self._cell_hmax(get_key(i, j, k)))
             return self._neighbor_boxes_sym(i, j, k, current_key_to_idx,
                     current_pids, current_cids, current_hmax, num_particles,
                     found_indices, h)
+
+    cdef double _cell_hmax(self, uint64_t key):
+        """Largest h in the cell with the given key, over all arrays"""
+        cdef NNPSParticleArrayWrapper pa_wrapper
+        cdef double* h_ptr
+        cdef int a, j, num_particles
+        cdef double hmax = 0
+        for a in range(self.narrays):
+            pa_wrapper = self.pa_wrappers[a]
+            num_particles = pa_wrapper.get_number_of_particles()
+            h_ptr = pa_wrapper.h.data
+            j = self.get_idx(key, self.key_to_idx[a])
+            if j == -1:
+                continue
+            while j < num_particles and self.keys[a][j] == key:
+                hmax = fmax(hmax, h_ptr[self.pids[a][j]])
+                j += 1
+        return hmax
 
     cdef int _neighbor_boxes_asym(self, int i, int j, int k,
             int* current_key_to_idx, uint32_t* current_pids,
